@@ -95,7 +95,8 @@ def run(ctx):
     ctx.build()
     q = ctx.quick()
     lim = 2500 if q else 0
-    cfgs = [("n3d3s0", 3, 0, None, lim), ("n3d3s2", 3, 2, None, lim), ("n3d2s1", 2, 1, None, lim)]
+    # (n4d3s0one: every tree of FOUR blocks, one miner, one confirm packet per deputy - 29k transitions, replayed completely in both tiers)
+    cfgs = [("n3d3s0", 3, 0, None, lim), ("n3d3s2", 3, 2, None, lim), ("n3d2s1", 2, 1, None, lim), ("n4d3s0one", 3, 0, None, 0)]
     # term configurations (TermDuration 4, InterimDuration 1; the blocks below the boundary are a stabilised prefix):
     #  t34: genesis {1,2,3} -> {2,3,4,5} from height 6 (threshold 2 -> 3), prefix 1..4, universe heights 5..7
     #  t42: genesis {1,2,3,4} -> {3,5} from height 6 (threshold 3 -> 2), prefix 1..4
@@ -134,10 +135,10 @@ def run(ctx):
         ctx.cov["traces_validated_against_impl"] += r["behaviours_replayed"] if r["accepted"] else 0
         ctx.extra.setdefault("graphs", []).append({k: v for k, v in r.items() if k != "samples"})
     ctx.cov["samples"] = results[0]["samples"][:2] + results[min(3, len(results) - 1)]["samples"][:1]
-    if not q:
-        ctx.cov["exhaustive"] = True
-        # 4 blocks by simulation + replay
-        sim = ctx.tlc_simulate("MCConsensus", "MCConsensus_n4d3s0.cfg", num=3000, depth=14, prefix="c4")
+    if not only:
+        ctx.cov["exhaustive"] = not q
+        # 4 blocks (a fork hanging on an intermediate block of a multi-height stable jump needs four) by simulation + replay
+        sim = ctx.tlc_simulate("MCConsensus", "MCConsensus_n4d3s0.cfg", num=300 if q else 3000, depth=14, prefix="c4", timeout=900)
         files, summ = ctx.replay("consensus", sim=sim, shards=16, name="consensus_sim_n4d3s0", env={"VERIF_ND": "3", "VERIF_SELF": "0"}, timeout=3000, chunk=300)
         ctx.validate("TraceConsensusT", "TraceConsensusT.cfg", files, what="simulated 4-block behaviours", timeout=3000)
     ctx.assumptions += ["block universe: every parent function on 3 (simulation: 4) blocks, every miner assignment; blocks carry no transactions",
